@@ -46,6 +46,8 @@ func runC18(c *Ctx) {
 	c.Evals += s.States
 	gd := desc(gen)
 	resp := gd + "#0"
+	PD := paramWhere(ENV, isNamed("ocispec.Descriptor"))
+	PO := paramWhere(ENV, hasField("SignatureMediaType"))
 	var parse, verify *ssa.Call
 	for _, ci := range allCalls(ENV) {
 		call, ok := ci.(*ssa.Call)
@@ -68,20 +70,20 @@ func runC18(c *Ctx) {
 	content := vd + "#0.Payload.Content"
 	c.requireOnExits("envelope", ENV, s.Exits, []Need{
 		{Name: "plugin-error", What: "GenerateEnvelope err == nil", Subs: []string{"EQ(" + gd + "#err,nil)"}},
-		{Name: "format-echo", What: "response envelope type == requested envelope type", Alt: [][]string{{"EQ(" + resp + ".SignatureEnvelopeType,", ".SignatureEnvelopeType)"}, {"EQ(" + resp + ".SignatureEnvelopeType,param:opts.SignatureMediaType)"}}},
-		{Name: "parse", What: "ParseEnvelope(requested media type (or the response type, which format-echo equates with it), response envelope bytes) err == nil", Alt: [][]string{{"EQ(call:core/signature.ParseEnvelope(param:opts.SignatureMediaType," + resp + ".SignatureEnvelope)#err,nil)"}, {"EQ(call:core/signature.ParseEnvelope(" + resp + ".SignatureEnvelopeType," + resp + ".SignatureEnvelope)#err,nil)"}}},
+		{Name: "format-echo", What: "response envelope type == requested envelope type", Alt: [][]string{{"EQ(" + resp + ".SignatureEnvelopeType,", ".SignatureEnvelopeType)"}, {"EQ(" + resp + ".SignatureEnvelopeType," + PO + ".SignatureMediaType)"}}},
+		{Name: "parse", What: "ParseEnvelope(requested media type (or the response type, which format-echo equates with it), response envelope bytes) err == nil", Alt: [][]string{{"EQ(call:core/signature.ParseEnvelope(" + PO + ".SignatureMediaType," + resp + ".SignatureEnvelope)#err,nil)"}, {"EQ(call:core/signature.ParseEnvelope(" + resp + ".SignatureEnvelopeType," + resp + ".SignatureEnvelope)#err,nil)"}}},
 		{Name: "self-verify", What: "Envelope.Verify() err == nil on the parsed envelope", Subs: []string{"EQ(" + vd + "#err,nil)"}},
 		{Name: "payload-type", What: "verified payload content type == envelope.MediaTypePayloadV1", Subs: []string{"EQ(" + vd + "#0.Payload.ContentType," + fmt.Sprintf("const:%q)", pt)}},
 		{Name: "payload-decode", What: "json.Unmarshal(verified payload content, *envelope.Payload) err == nil", Subs: []string{"EQ(call:encoding/json.Unmarshal(" + content + ",alloc:ngo/internal/envelope.Payload<", ")#err,nil)"}},
-		{Name: "descriptor-equal", What: "content.Equal(requested descriptor, signed target)", Alt: [][]string{{"T(call:oras/content.Equal(param:desc,alloc:ngo/internal/envelope.Payload<", ">.TargetArtifact))"}, {"T(call:oras/content.Equal(alloc:ngo/internal/envelope.Payload<", ">.TargetArtifact,param:desc))"}}},
-		{Name: "annotations-loop-completed", What: "the preservation loop over the requested descriptor's annotations ran to completion", Subs: []string{"F(rangeok(param:desc.Annotations))"}},
+		{Name: "descriptor-equal", What: "content.Equal(requested descriptor, signed target)", Alt: [][]string{{"T(call:oras/content.Equal(" + PD + ",alloc:ngo/internal/envelope.Payload<", ">.TargetArtifact))"}, {"T(call:oras/content.Equal(alloc:ngo/internal/envelope.Payload<", ">.TargetArtifact," + PD + "))"}}},
+		{Name: "annotations-loop-completed", What: "the preservation loop over the requested descriptor's annotations ran to completion", Subs: []string{"F(rangeok(" + PD + ".Annotations))"}},
 	})
 	// the request's envelope type is the caller's
 	okReq := false
 	for _, b := range ENV.Blocks {
 		for _, in := range b.Instrs {
 			if st, ok := in.(*ssa.Store); ok {
-				if fa, ok := st.Addr.(*ssa.FieldAddr); ok && namedOf(fa.X.Type()) == "pfw/plugin.GenerateEnvelopeRequest" && fieldName(fa.X.Type(), fa.Field) == "SignatureEnvelopeType" && desc(st.Val) == "param:opts.SignatureMediaType" {
+				if fa, ok := st.Addr.(*ssa.FieldAddr); ok && namedOf(fa.X.Type()) == "pfw/plugin.GenerateEnvelopeRequest" && fieldName(fa.X.Type(), fa.Field) == "SignatureEnvelopeType" && desc(st.Val) == PO+".SignatureMediaType" {
 					okReq = true
 				}
 			}
@@ -163,7 +165,7 @@ func runC18(c *Ctx) {
 							if st, ok := in.(*ssa.Store); ok {
 								if fa, ok := st.Addr.(*ssa.FieldAddr); ok && namedOf(fa.X.Type()) == "ngo/internal/envelope.Payload" && fieldName(fa.X.Type(), fa.Field) == "TargetArtifact" {
 									d := desc(st.Val)
-									if d == "param:desc" || d == "call:ngo/internal/envelope.SanitizeTargetArtifact(param:desc)" {
+									if d == PD || d == "call:ngo/internal/envelope.SanitizeTargetArtifact("+PD+")" {
 										okPay = true
 									}
 								}
@@ -176,7 +178,7 @@ func runC18(c *Ctx) {
 	}
 	c.Check(okPay, "envelope/request-payload", "the plugin is asked to sign the payload built from the requested descriptor, with the signer's key id and the v1 payload type", w.FnPos(ENV), fmt.Sprintf("request fields: %v", reqF))
 	// the annotation-preservation function
-	c18Subset(c, ENV)
+	c18Subset(c, ENV, PD)
 	c18Raw(c)
 	c18Dispatch(c, ENV)
 	// (d) and (e)
@@ -186,7 +188,7 @@ func runC18(c *Ctx) {
 }
 
 // c18Subset: the function with the per-annotation loop.
-func c18Subset(c *Ctx, ENV *ssa.Function) {
+func c18Subset(c *Ctx, ENV *ssa.Function, PD string) {
 	w := c.W
 	var SUB *ssa.Function
 	var sub *ssa.Call
@@ -214,18 +216,18 @@ func c18Subset(c *Ctx, ENV *ssa.Function) {
 	}
 	origIdx := -1
 	if sub != nil {
-		for i, a := range sub.Call.Args {
-			d := desc(a)
-			if d == "param:desc" || d == "param:originalDesc" || d == "param:original" {
-				origIdx = i
+		if sub.Parent() == ENV {
+			for i, a := range sub.Call.Args {
+				if desc(a) == PD {
+					origIdx = i
+				}
 			}
-		}
-		// resolve through one wrapper level
-		if sub.Parent() != ENV {
+		} else {
+			// through one wrapper level: ENV passes the requested descriptor to the wrapper, the wrapper passes that parameter on
 			for _, ci := range allCalls(ENV) {
 				if call, ok := ci.(*ssa.Call); ok && staticCallee(call) == sub.Parent() {
 					for i, a := range call.Call.Args {
-						if desc(a) == "param:desc" {
+						if desc(a) == PD && i < len(sub.Parent().Params) {
 							pn := "param:" + sub.Parent().Params[i].Name()
 							for j, b := range sub.Call.Args {
 								if desc(b) == pn {
@@ -509,6 +511,16 @@ func c18Raw(c *Ctx) {
 // c18Dispatch: Sign and SignBlob of the plugin signer.
 func c18Dispatch(c *Ctx, ENV *ssa.Function) {
 	w := c.W
+	// the raw path: the plugin signer's method that delegates to the generic signer
+	var RAW *ssa.Function
+	for _, fn := range w.FuncsOfPkg("signer") {
+		if fn == ENV || fn.Signature.Recv() == nil || namedOf(fn.Signature.Recv().Type()) != "ngo/signer.PluginSigner" || fn.Name() == "Sign" || fn.Name() == "SignBlob" {
+			continue
+		}
+		if len(findCalls(fn, "(*ngo/signer.GenericSigner).Sign")) > 0 {
+			RAW = fn
+		}
+	}
 	sg, _ := w.depConstString("github.com/notaryproject/notation-plugin-framework-go/plugin", "CapabilitySignatureGenerator")
 	eg, _ := w.depConstString("github.com/notaryproject/notation-plugin-framework-go/plugin", "CapabilityEnvelopeGenerator")
 	n := 0
@@ -524,12 +536,12 @@ func c18Dispatch(c *Ctx, ENV *ssa.Function) {
 		detail := ""
 		for _, ex := range s.Exits {
 			viaEnv := ex.Tail == fnName(ENV)
-			viaRaw := strings.Contains(ex.Tail, "generateSignature") && !strings.Contains(ex.Tail, "Envelope")
+			viaRaw := RAW != nil && ex.Tail == fnName(RAW)
 			for l := range ex.Checked {
 				if strings.HasPrefix(l, "EQ(call:"+fnName(ENV)+"(") && strings.HasSuffix(l, "#err,nil)") {
 					viaEnv = true
 				}
-				if strings.HasPrefix(l, "EQ(call:(*ngo/signer.PluginSigner).generateSignature(") && strings.HasSuffix(l, "#err,nil)") {
+				if RAW != nil && strings.HasPrefix(l, "EQ(call:"+fnName(RAW)+"(") && strings.HasSuffix(l, "#err,nil)") {
 					viaRaw = true
 				}
 			}
